@@ -487,6 +487,33 @@ example := parts_sum_partial basisPauli _ sP onh0_basisPauli Complex.I_mul_I mat
   (Mat.one : Mat ℂ (2 * 2 - 1) (2 * 2 - 1)) matX_herm (by simp) matX
 example := gksl_action_hk basisPauli matX (Mat.one : Mat ℂ (2 * 2 - 1) (2 * 2 - 1)) matX_herm (by intro a b; simp [eq_comm]) matX
 
+/-- the executed-instance theorems on a NON-DEGENERATE executed basis: two qubits, `σ_a ⊗ σ_b / 2` over `CRat`
+(`onh0_basisPauli2`, kernel-checked), `H = J = 1₄`, `K = 1₁₅` (`λ = (1,…,1)`, `V = 1`: the eig contract holds exactly) -/
+example : calcKMat basisPauli2 (toHerm basisPauli2 (cbFromHjk basisPauli2 Mat.one Mat.one (Mat.one : Mat CRat (4 * 4 - 1) (4 * 4 - 1))))
+    = Mat.one :=
+  extract_of_rebuild_hs_exec basisPauli2 _ _ onh0_basisPauli2 Mat.one Mat.one Mat.one (by simp) (by simp)
+example (lam : Vec CRat (4 * 4 - 1)) (V : Mat CRat (4 * 4 - 1) (4 * 4 - 1)) :=
+  projIneq_dissipator basisPauli2 _ _ onh0_basisPauli2 Mat.one Mat.one lam V (by simp) (by simp)
+example :
+    let lam : Vec CRat (4 * 4 - 1) := Vec.ofFn fun _ => 1
+    let hs := toHerm basisPauli2 (cbFromHjk basisPauli2 Mat.one Mat.one (diagC lam))
+    toHerm basisPauli2 (cbFromHjk basisPauli2 (calcHMat basisPauli2 hs) (calcJMat basisPauli2 hs) (clipK lam Mat.one)) = hs := by
+  intro lam hs
+  have hd : (diagC lam).toMᴴ = (diagC lam).toM := by
+    apply Matrix.ext; intro i j
+    by_cases h : i = j
+    · subst h; simp only [Matrix.conjTranspose_apply, Mat.toM_apply, diagC, Mat.get_ofFn, if_true, lam, Vec.get_ofFn]; rfl
+    · have h' : ¬ j = i := fun e => h e.symm
+      simp [diagC, Matrix.conjTranspose_apply, h, h']
+  exact projIneq_fixed_point basisPauli2 _ _ onh0_basisPauli2 Mat.one Mat.one (diagC lam) (by simp) (by simp) lam Mat.one
+    (by rw [one_mul_diagC_adj_one]
+        exact (extract_of_rebuild_hs_exec basisPauli2 _ _ onh0_basisPauli2 Mat.one Mat.one (diagC lam) (by simp) (by simp)).symm)
+    (by intro i; simp [lam, Vec.get_ofFn, cltZero])
+example (M : Mat Rat (4 * 4) (4 * 4))
+    (hM : hsFromHk basisPauli2 Mat.one (Mat.one : Mat CRat (4 * 4 - 1) (4 * 4 - 1)) 0 0 = .ok M) : isTp M 0 = true :=
+  hsFromHk_isTp basisPauli2 Mat.one Mat.one (by simp) (by intro a b; by_cases h : a = b <;> simp [Mat.one, h, eq_comm])
+    ⟨0, by decide⟩ rfl (⟨1/2, 0⟩ : CRat) (by decide +kernel) 0 0 0 le_rfl M hM
+
 /-! ## what the jump-operator builders do, and the H-only / K-only builders -/
 section jumpthm
 variable {K : Type} [Field K] [StarRing K] [CharZero K] [HasI K] {d : Nat}
